@@ -547,6 +547,8 @@ def evaluate(calls, dadi=None, env=None, layout=None, keep_values=False):
 
 
 if __name__ == "__main__":
+    from vf import reach
+    reach.install()
     import logging
     import warnings
     warnings.filterwarnings("ignore")
